@@ -1,1 +1,231 @@
-/-! Property theorems for C19 (stub: none yet). -/
+import TxdbusModel.Proofs.Sig.Split
+import TxdbusModel.Proofs.Sig.Parse
+import TxdbusModel.Proofs.Wire.Infer
+import TxdbusModel.Sig.ArgCount
+import TxdbusModel.Wire.InferOrig
+import TxdbusModel.Gen.Wrappers
+/-!
+# C19 - Signatures split into complete types; inferred variant types always encode
+
+Models: `Sig/Split.lean` (genCompleteTypes + find_end), `Sig/ArgCount.lean` (interface.py),
+`Wire/Infer.lean` (sigFromPy after repairs 6ba9f66 and fixes/C19-01), spec side `Sig/Ty.lean`
+(`render`), `Sig/Parse.lean` (grammar parser), `Wire/InferTy.lean` (type-level inference).
+Only property theorems here; lemmas are in `Proofs/Sig/*`, `Proofs/Wire/Infer.lean`.
+-/
+namespace Txdbus.C19
+open Txdbus
+
+/-! ## 1. Splitting: exactly the decomposition the grammar defines, at any nesting depth -/
+
+/-- `list(genCompleteTypes(sig))` on the rendering of ANY list of types (any depth, validity not
+needed) is the list of the renderings. -/
+theorem split_render (ts : List Ty) :
+    genCompleteTypes (renderAll ts) = .ok (ts.map Ty.render) :=
+  genCompleteTypes_renderAll ts
+
+/-- The generator consumed lazily (`zip(genCompleteTypes(sig), values)`, `for ct in ...`) yields the
+same pieces and raises nothing. -/
+theorem split_render_lazy (ts : List Ty) :
+    lazyPieces (renderAll ts) = (ts.map Ty.render, none) :=
+  lazyPieces_renderAll ts
+
+/-- One `next()`: the first complete type, whatever follows it. -/
+theorem split_first (t : Ty) (rest : List Char) :
+    firstType (t.render ++ rest) = .ok (t.render, rest) :=
+  firstType_render t rest
+
+/-- The pieces concatenate to the input - for EVERY input on which splitting succeeds, valid or not. -/
+theorem split_concat (s : List Char) (ps : List (List Char)) (h : genCompleteTypes s = .ok ps) :
+    ps.flatten = s :=
+  genCompleteTypes_concat s ps h
+
+/-- Each piece of a valid signature is one complete type. -/
+theorem split_each_complete (ts : List Ty) (ps : List (List Char))
+    (h : genCompleteTypes (renderAll ts) = .ok ps) : ∀ p ∈ ps, ∃ t : Ty, p = t.render := by
+  rw [split_render] at h
+  cases h
+  intro p hp
+  obtain ⟨t, _, rfl⟩ := List.mem_map.mp hp
+  exact ⟨t, rfl⟩
+
+/-- The number of pieces is the number of complete types. -/
+theorem split_count (ts : List Ty) : countCompleteTypes (renderAll ts) = .ok ts.length :=
+  countCompleteTypes_renderAll ts
+
+/-- `render` is injective (it has the grammar parser as a left inverse). -/
+theorem render_injective (t u : Ty) (h : t.render = u.render) : t = u :=
+  Txdbus.render_injective h
+
+/-- The decomposition is unique: any way of cutting a signature into renderings of complete types is
+the one the splitter returns. -/
+theorem decomposition_unique (ts us : List Ty) (h : (us.map Ty.render).flatten = renderAll ts) :
+    genCompleteTypes (renderAll ts) = .ok (us.map Ty.render) := by
+  rw [← renderAll_eq_flatten] at h
+  rw [renderAll_injective h]
+  exact split_render ts
+
+/-- The splitter agrees with the independent grammar parser on every signature of the grammar. -/
+theorem split_agrees_with_grammar (ts : List Ty) :
+    (parseTypes (renderAll ts)).map (List.map Ty.render) = (genCompleteTypes (renderAll ts)).toOption := by
+  rw [parseTypes_renderAll, split_render]; rfl
+
+/-- interface.py: a freshly declared method / signal gets exactly the number of complete types of its
+signatures as `nargs` / `nret`. -/
+theorem argcount_eq_types (as rs : List Ty) :
+    addMethod { sigIn := renderAll as, sigOut := renderAll rs } =
+      .ok { nargs := as.length, nret := rs.length, sigIn := renderAll as, sigOut := renderAll rs } ∧
+    addSignal { sig := renderAll as } = .ok { nargs := as.length, sig := renderAll as } := by
+  simp [addMethod, addSignal, countCompleteTypes_renderAll]
+
+example : genCompleteTypes "a{s(iv)}a(ai)x".toList = .ok ["a{s(iv)}".toList, "a(ai)".toList, "x".toList] := by
+  decide
+example : ∃ ts : List Ty, renderAll ts = "a{s(iv)}a(ai)x".toList :=
+  ⟨[.array (.dict (.basic .s) (.struct [.basic .i, .variant])), .array (.struct [.array (.basic .i)]), .basic .x],
+   by decide⟩
+
+/-! Malformed input is mirrored, not repaired (witnesses of the modelled error behaviour). -/
+example : genCompleteTypes "i(".toList = .error .typeError := by decide
+example : genCompleteTypes "ia".toList = .error .stopIteration := by decide
+example : lazyPieces "a{s(iv)}i(".toList = (["a{s(iv)}".toList, "i".toList], some .typeError) := by decide
+example : genCompleteTypes "i)".toList = .ok ["i".toList, ")".toList] := by decide
+
+/-! ## 2. Inference: always one complete type; wrappers select their type -/
+
+/-- Whenever `sigFromPy` succeeds on a value built from the builtin and wrapper classes (no object
+with its own `dbusSignature`), the result is the rendering of ONE complete type - the type
+`inferTy v` of the documented rules. -/
+theorem infer_single_complete_type (v : PyVal) (hv : v.noCustomSig = true) (s : List Char)
+    (h : sigFromPy v = .ok s) : ∃ t : Ty, inferTy v = some t ∧ s = t.render := by
+  rw [sigFromPy_eq_inferTy v hv] at h
+  cases ht : inferTy v with
+  | none => simp [ht, renderRes] at h
+  | some t =>
+    simp only [ht, renderRes] at h
+    cases h
+    exact ⟨t, rfl, rfl⟩
+
+/-- ... and therefore the variant marshaller's `genCompleteTypes(vsig)` sees exactly one piece. -/
+theorem infer_splits_into_one (v : PyVal) (hv : v.noCustomSig = true) (s : List Char)
+    (h : sigFromPy v = .ok s) : genCompleteTypes s = .ok [s] := by
+  obtain ⟨t, _, rfl⟩ := infer_single_complete_type v hv s h
+  exact genCompleteTypes_render t
+
+/-- Inference fails only with MarshallingError, and exactly when the rules give no type. -/
+theorem infer_fails_iff (v : PyVal) (hv : v.noCustomSig = true) :
+    (∃ e, sigFromPy v = .error e) ↔ inferTy v = none := by
+  rw [sigFromPy_eq_inferTy v hv]
+  cases inferTy v <;> simp [renderRes]
+
+/-- On values built from bool, int, float, str, bytearray, wrappers, lists, tuples and dicts
+inference always succeeds. -/
+theorem infer_total_on_builtin (v : PyVal) (hv : v.builtinOnly = true) : ∃ t, inferTy v = some t :=
+  inferTy_total v hv
+
+/-- Under the shape conditions DBus imposes (no empty tuple, dict keys scalar) the inferred type is a
+well-formed DBus type: non-empty structs, dict entries only inside arrays with a basic key. -/
+theorem infer_valid_type (v : PyVal) (hv : v.encodableShape = true) :
+    ∃ t, inferTy v = some t ∧ t.wf = true :=
+  inferTy_wf v hv
+
+/-- The explicit wrapper classes select exactly their DBus type, whatever the value. -/
+theorem wrapper_selects_type :
+    (∀ n, sigFromPy (.int .byte n) = .ok ['y']) ∧ (∀ n, sigFromPy (.int .boolean n) = .ok ['b']) ∧
+    (∀ n, sigFromPy (.int .int16 n) = .ok ['n']) ∧ (∀ n, sigFromPy (.int .uint16 n) = .ok ['q']) ∧
+    (∀ n, sigFromPy (.int .int32 n) = .ok ['i']) ∧ (∀ n, sigFromPy (.int .uint32 n) = .ok ['u']) ∧
+    (∀ n, sigFromPy (.int .int64 n) = .ok ['x']) ∧ (∀ n, sigFromPy (.int .uint64 n) = .ok ['t']) ∧
+    (∀ s, sigFromPy (.str .signature s) = .ok ['g']) ∧ (∀ s, sigFromPy (.str .objectPath s) = .ok ['o']) := by
+  simp [sigFromPy, IntCls.dbusSignature, StrCls.dbusSignature]
+
+/-- Python class names of the model's integer / string classes. -/
+def intClsName : IntCls → String
+  | .plain => "int" | .byte => "Byte" | .boolean => "Boolean" | .int16 => "Int16" | .uint16 => "UInt16"
+  | .int32 => "Int32" | .uint32 => "UInt32" | .int64 => "Int64" | .uint64 => "UInt64"
+def strClsName : StrCls → String
+  | .plain => "str" | .signature => "Signature" | .objectPath => "ObjectPath"
+
+def allIntCls : List IntCls := [.byte, .boolean, .int16, .uint16, .int32, .uint32, .int64, .uint64]
+def allStrCls : List StrCls := [.signature, .objectPath]
+
+/-- The wrapper table of the model IS the table of the source (regenerated on every run): the
+classes with a `dbusSignature` attribute, their bases, their signatures; `variantClassMap` is its inverse. -/
+theorem wrapper_table_matches_source :
+    Gen.Wrappers.wrapperClasses =
+      allIntCls.filterMap (fun c => c.dbusSignature.map fun s => (intClsName c, "int", s)) ++
+      allStrCls.filterMap (fun c => c.dbusSignature.map fun s => (strClsName c, "str", s)) ∧
+    Gen.Wrappers.variantClassMap = Gen.Wrappers.wrapperClasses.map (fun (n, _, s) => (s, n)) := by
+  decide
+
+/-- The plain-int rule, the order of the class tests (bool before int) and the literal signatures of
+the model are those of the source. -/
+theorem int_rule_matches_source :
+    Gen.Wrappers.intRanges = [(-2147483648, 2147483648, 'i'), (-9223372036854775808, 9223372036854775808, 'x')] ∧
+    Gen.Wrappers.intDefault = 't' ∧
+    Gen.Wrappers.scalarBranches = [("bool", "b"), ("int", "int"), ("float", "d"), ("str", "s"), ("bytearray", "ay")] ∧
+    Gen.Wrappers.emptyListSig = "av" ∧ Gen.Wrappers.emptyDictSig = "a{sv}" ∧ Gen.Wrappers.mixedListSig = "av" := by
+  decide
+
+/-- The range rule in one statement: a plain int gets the smallest of INT32 / INT64 / UINT64 that
+holds it (and 't' for everything else, which then cannot encode - outside the claim). -/
+theorem plain_int_rule (n : Int) :
+    sigFromPy (.int .plain n) = .ok [(intBasic n).code] ∧
+    ((-2147483648 ≤ n ∧ n < 2147483648) → intBasic n = .i) ∧
+    ((¬ (-2147483648 ≤ n ∧ n < 2147483648)) → (-9223372036854775808 ≤ n ∧ n < 9223372036854775808) → intBasic n = .x) ∧
+    (9223372036854775808 ≤ n → intBasic n = .t) := by
+  refine ⟨?_, ?_, ?_, ?_⟩
+  · simp [sigFromPy, IntCls.dbusSignature, intSig_eq, Ty.render]
+  · intro h; simp [intBasic, h]
+  · intro h1 h2; simp [intBasic, h1, h2]
+  · intro h
+    have h1 : ¬ (-2147483648 ≤ n ∧ n < 2147483648) := by omega
+    have h2 : ¬ (-9223372036854775808 ≤ n ∧ n < 9223372036854775808) := by omega
+    simp [intBasic, h1, h2]
+
+example : sigFromPy (.dict [(.str .plain ['a'], .list [.int .plain 1, .bool true]),
+                            (.str .plain ['b'], .list [])]) = .ok "a{sai}".toList := by decide
+example : (PyVal.dict [(.str .plain ['a'], .list [.int .plain 1, .bool true])]).noCustomSig = true := by decide
+
+/-! ## 3. Witnesses: the code before the repairs violates the property -/
+
+/-- F28 (repaired by 6ba9f66): the snapshot inferred 'i' for 2^40, which INT32 cannot hold; the
+repaired rule gives 'x'.  Replay: corpus/C19/f28-int-2pow40.json. -/
+theorem prefix_model_f28_infers_i :
+    sigFromPyOrig (.int .plain 1099511627776) = .ok ['i'] ∧
+    ¬ ((-2147483648 : Int) ≤ 1099511627776 ∧ (1099511627776 : Int) < 2147483648) ∧
+    sigFromPy (.int .plain 1099511627776) = .ok ['x'] := by
+  decide
+
+/-- C19-01 (fixes/C19-01-dict-value-signature.patch): `{'a': 2, 'b': True}` - the values differ in
+Python type (int, bool), the snapshot judged `same` against `int` but took the signature of the last
+value, `a{sb}`, under which 2 travels as the boolean True; the repaired rule gives `a{si}`, the
+common base type.  Replay: corpus/C19/dict-value-from-last-bool.json. -/
+theorem prefix_model_dict_value_from_last :
+    sigFromPyOrig (.dict [(.str .plain ['a'], .int .plain 2), (.str .plain ['b'], .bool true)])
+      = .ok "a{sb}".toList ∧
+    sigFromPy (.dict [(.str .plain ['a'], .int .plain 2), (.str .plain ['b'], .bool true)])
+      = .ok "a{si}".toList ∧
+    sigFromPy (.list [.int .plain 2, .bool true]) = .ok "ai".toList := by
+  decide
+
+end Txdbus.C19
+
+#print axioms Txdbus.C19.split_render
+#print axioms Txdbus.C19.split_render_lazy
+#print axioms Txdbus.C19.split_first
+#print axioms Txdbus.C19.split_concat
+#print axioms Txdbus.C19.split_each_complete
+#print axioms Txdbus.C19.split_count
+#print axioms Txdbus.C19.render_injective
+#print axioms Txdbus.C19.decomposition_unique
+#print axioms Txdbus.C19.split_agrees_with_grammar
+#print axioms Txdbus.C19.argcount_eq_types
+#print axioms Txdbus.C19.infer_single_complete_type
+#print axioms Txdbus.C19.infer_splits_into_one
+#print axioms Txdbus.C19.infer_fails_iff
+#print axioms Txdbus.C19.infer_total_on_builtin
+#print axioms Txdbus.C19.infer_valid_type
+#print axioms Txdbus.C19.wrapper_selects_type
+#print axioms Txdbus.C19.wrapper_table_matches_source
+#print axioms Txdbus.C19.int_rule_matches_source
+#print axioms Txdbus.C19.plain_int_rule
+#print axioms Txdbus.C19.prefix_model_f28_infers_i
+#print axioms Txdbus.C19.prefix_model_dict_value_from_last
